@@ -59,7 +59,10 @@ TECHNIQUE = ("Lean 4 theorems about an executable model of signac/import_export.
              "member lists, the three import analysers, schema strings) + differential correspondence of the "
              "compiled model against real export_to / import_from round trips + a model-independent round-trip oracle")
 LEVEL_TEXT = ("Proved in Lean for all projects, all path lists and every hash function (state point -> id): "
-              "(1) valid_paths_roundtrip_tar (unconditional), valid_paths_roundtrip_multi (two or more jobs, every target), "
+              "(1) valid_paths_roundtrip (headline: every project without empty path components, every prefix-free path list, "
+              "every target kind - zip under NoEmptyDirs, finding F-16e -: export then import = identity), "
+              "valid_paths_roundtrip_dir_anyorder (directory import under ANY duplicate-free parents-first visiting order, which "
+              "os.walk(topdown=True) always is), valid_paths_roundtrip_tar (unconditional), valid_paths_roundtrip_multi (two or more jobs, every target), "
               "valid_paths_roundtrip_subdirs, valid_paths_roundtrip_partial and the older _{zip,tar,dir}_partial: if the export "
               "paths are injective and component-wise prefix-free, importing the exported member list into an empty project with the zip, the tar and the "
               "directory analyser (for every admissible os.walk order) raises nothing and gives back exactly the exported "
@@ -78,8 +81,8 @@ LEVEL_TEXT = ("Proved in Lean for all projects, all path lists and every hash fu
 LEVEL_NOTE = ("State-point files nested inside a job (a copied job directory) are covered: the proofs use that every analyser "
               "visits parents first and never looks below a recognised job. Remaining hypotheses: zip needs NoEmptyDirs; a single "
               "job exported to the target root needs TopNamed (no path component '' at the top - the counter-example "
-              "valid_paths_roundtrip_nested_false is a directory literally named '', a model artefact); import_no_overwrite_* "
-              "still carry NoNestedSp. "
+              "valid_paths_roundtrip_nested_false is a directory literally named '', a model artefact); import_no_overwrite_*_nested / "
+              "import_no_overwrite (all targets) no longer need NoNestedSp. "
               "The zip theorems additionally need NoEmptyDirs: zip export does not store empty sub-directories (known "
               "finding F-16e, current behaviour modelled, valid_paths_roundtrip_full_false proves the full statement false "
               "from that witness; carve-out = zip target AND a job with an empty sub-directory AND only such directories "
@@ -458,7 +461,7 @@ def gen_str_case(rng):
 
 
 def generate(tier, rng):
-    n_rt = 3000 if tier == "quick" else 30000
+    n_rt = 6000 if tier == "quick" else 30000
     n_parse = 400 if tier == "quick" else 3000
     n_str = 150 if tier == "quick" else 1500
     for c in fixed_cases():
